@@ -11,6 +11,8 @@ import Bita.Model.Chunker
 import Bita.Spec.Chunking
 import Bita.Model.Output
 import Bita.Spec.InPlace
+import Bita.Model.Archive
+import Bita.Model.Blake2b
 import Driver.Proto
 
 open Bita Driver
@@ -120,6 +122,72 @@ def parseOp (t : String) : Option (ROp Nat) :=
 def parseOps (s : String) : Option (List (ROp Nat)) :=
   if s = "-" then some [] else (splitNE s ",").mapM parseOp
 
+/-! dictionary tokens: `v=<hex>;sc=<hex>;ts=<n>;cp=<b.mn.mx.w.hl.algo|->;cc=<c.l|->;ro=<n.n|->;cd=<hex:asz:aoff:ssz,..|->;md=<hex:hex,..|->` -/
+def kvOf (s : String) : List (String × String) :=
+  (splitNE s ";").filterMap fun t => match t.splitOn "=" with
+    | [k, v] => some (k, v)
+    | _ => none
+
+def parseDict (s : String) : Option Proto.ChunkDictionary := do
+  let kv := kvOf s
+  let get (k : String) : String := ((kv.find? (·.1 = k)).map (·.2)).getD "-"
+  let cp ← (if get "cp" = "-" then some none else do
+    match ← parseNatList (get "cp") "." with
+    | [b, mn, mx, w, hl, al] => some (some (⟨b, mn, mx, w, hl, al⟩ : Proto.ChunkerParameters))
+    | _ => none)
+  let cc ← (if get "cc" = "-" then some none else do
+    match ← parseNatList (get "cc") "." with
+    | [c, l] => some (some (⟨c, l⟩ : Proto.ChunkCompression))
+    | _ => none)
+  let cds ← (if get "cd" = "-" then some [] else (splitNE (get "cd") ",").mapM fun t =>
+    match t.splitOn ":" with
+    | [h, a, o, z] => do some (⟨← parseHex h, ← parseNat a, ← parseNat o, ← parseNat z⟩ : Proto.ChunkDescriptor)
+    | _ => none)
+  let md ← (if get "md" = "-" then some [] else (splitNE (get "md") ",").mapM fun t =>
+    match t.splitOn ":" with
+    | [k, v] => do some (← parseHex k, ← parseHex v)
+    | _ => none)
+  some { applicationVersion := ← parseHex (get "v"), sourceChecksum := ← parseHex (get "sc")
+         sourceTotalSize := ← parseNat (get "ts"), chunkerParams := cp, chunkCompression := cc
+         rebuildOrder := ← (if get "ro" = "-" then some [] else parseNatList (get "ro") ".")
+         chunkDescriptors := cds, metadata := md }
+
+def dots (ns : List Nat) : String := joinWith "." (ns.map toString)
+
+def showDict (d : Proto.ChunkDictionary) : String :=
+  let cp := match d.chunkerParams with
+    | none => "-"
+    | some p => dots [p.chunkFilterBits, p.minChunkSize, p.maxChunkSize, p.rollingHashWindowSize, p.chunkHashLength, p.chunkingAlgorithm]
+  let cc := match d.chunkCompression with
+    | none => "-"
+    | some c => dots [c.compression, c.compressionLevel]
+  let cd := joinWith "," (d.chunkDescriptors.map fun c => s!"{toHex c.checksum}:{c.archiveSize}:{c.archiveOffset}:{c.sourceSize}")
+  let md := joinWith "," (d.metadata.map fun e => s!"{toHex e.1}:{toHex e.2}")
+  s!"v={toHex d.applicationVersion};sc={toHex d.sourceChecksum};ts={d.sourceTotalSize};cp={cp};cc={cc};ro={dots d.rebuildOrder};cd={cd};md={md}"
+
+def showConfig : Config → String
+  | .rollsum f => s!"R:{f.bits}:{f.minSize}:{f.maxSize}:{f.window}"
+  | .buzhash f => s!"B:{f.bits}:{f.minSize}:{f.maxSize}:{f.window}"
+  | .fixed n => s!"F:{n}"
+
+def showArchive (a : Archive) : String :=
+  let cd := joinWith "," (a.chunks.map fun c => s!"{toHex c.checksum}:{c.archiveSize}:{c.archiveOffset}:{c.sourceSize}")
+  let co := match a.compression with
+    | none => "-"
+    | some (c, l) => s!"{c}.{l}"
+  let md := joinWith "," (a.metadata.map fun e => s!"{toHex e.1}:{toHex e.2}")
+  s!"ok cfg={showConfig a.config} hl={a.hashLength} co={co} hs={a.headerSize} hc={toHex (a.headerChecksum.take 8)} cdo={a.chunkDataOffset} ts={a.sourceTotalSize} sc={toHex a.sourceChecksum} v={toHex a.version} ro={dots a.sourceOrder} cd={cd} md={md}"
+
+def showOutcome {α : Type} (f : α → String) : Outcome α → String
+  | .ok a => f a
+  | .invalid _ => "invalid"
+  | .readerErr => "reader-err"
+  | .panic _ => "panic"
+  | .abort _ => "abort"
+
+def fileReader (file : Bytes) (off size : Nat) : Option Bytes :=
+  if off + size ≤ file.length then some (slice file off size) else none
+
 def parseIds (s : String) : Option (List Nat) := if s = "-" then some [] else parseNatList s "."
 
 def handle (toks : List String) : Option String :=
@@ -131,6 +199,32 @@ def handle (toks : List String) : Option String :=
     let nix := tilingIndex sizes (← parseIds n)
     let (target, cnt, tot) := oix.strip nix
     some s!"strip={cnt}.{tot} ops={joinWith "," ((reorderOps oix target).map showOp)}"
+  -- encode-dict <dict> : prost encoding of the dictionary
+  | ["encode-dict", d] => do some (toHex (Proto.encodeDictionary (← parseDict d)))
+  -- decode-dict <hex> : prost decoding
+  | ["decode-dict", h] => do
+    match Proto.decodeDictionary (← parseHex h) with
+    | some d => some (showDict d)
+    | none => some "error"
+  -- header <dict> <offset|-> : header::build
+  | ["header", d, off] => do
+    let o ← (if off = "-" then some none else (parseNat off).map some)
+    some (toHex (buildHeader Blake2b.hash (← parseDict d) o))
+  -- try-init <hex archive> : Archive::try_init through the local reader (default features)
+  | ["try-init", h] => do
+    let file ← parseHex h
+    some (showOutcome showArchive (tryInit Blake2b.hash [] (fileReader file)))
+  -- banner <hex archive> : the arithmetic of print_archive on an accepted archive
+  | ["banner", h] => do
+    let file ← parseHex h
+    match tryInit Blake2b.hash [] (fileReader file) with
+    | .ok a => some (showOutcome (fun (r : Nat × Nat × Nat) => s!"ok avg={r.1} mask={r.2.1} mean={r.2.2} index={(a.sourceIndex.map (·.length)).getD 0}") a.banner)
+    | o => some (showOutcome (fun _ => "ok") o)
+  | ["banner-noindex", h] => do
+    let file ← parseHex h
+    match tryInit Blake2b.hash [] (fileReader file) with
+    | .ok a => some (showOutcome (fun (r : Nat × Nat × Nat) => s!"ok avg={r.1} mask={r.2.1} mean={r.2.2} index=?") a.banner)
+    | o => some (showOutcome (fun _ => "ok") o)
   -- plan-safe <sizes> <O ids> <N ids> <ops> : is this op list (the implementation's) a safe plan
   -- in the sense of Spec.InPlace.safePlan?
   | ["plan-safe", sizes, o, n, ops] => do
